@@ -70,7 +70,7 @@ CHECKS = {
    category="exploration",
    ref="DESIGN.md section 2/C20; notes/C20.md"),
  "C02": dict(
-   technique="property-based testing: exhaustive discovery of the 777 public catalogue functions + Hypothesis-generated argument recipes (magnitudes, signs, units, prefixes); residual oracle against the published equation at 50 digits with a backward-error tolerance, and unit/call-style metamorphic relation; vector laws: round trips between mutually solved forms and a differential of every vector calculate function against the module's own law function in SI, with 1-3 written components",
+   technique="property-based testing: exhaustive discovery of the 777 public catalogue functions + Hypothesis-generated argument recipes (magnitudes, signs, units, prefixes); residual oracle against the published equation at 50 digits with a backward-error tolerance, and unit/call-style metamorphic relation; vector laws: round trips between mutually solved forms and a differential of every vector calculate function against the module's own law function in SI, with 1-3 written components; matrix laws entry by entry; an extra recipe per function ties parameters of equal dimension to the same SI value, and infinite sides of piecewise laws are compared as extended reals",
    text="For every function whose parameters and output correspond one-to-one to symbols of a published algebraic equation (503 of 777) the returned value and the arguments are substituted into that equation (root-agnostic residual; documented magnitude/rounded-up functions are compared with that operation applied to the harness's own solution); for every function the same physical arguments written in other units and passed by keyword must give the same SI result. 2 recipes per function quick, 24 thorough.",
    note="Trusted: parameter<->symbol correspondence from the guard symbols / naming convention, SI values computed by the harness unit table, SymPy N at 50 digits. Calls that raise are not violations (counted; never-returning functions listed as uncovered; sequence-valued and field-valued functions are not generated). Ill-conditioned cases (extreme magnitudes, catastrophic cancellation in double precision) are discarded and counted. Two open known findings.",
    ref="DESIGN.md section 2/C02"),
